@@ -334,7 +334,7 @@ fn equivalent_exact_on(a: &LmSpec, b: &LmSpec, declared_only: bool) -> bool {
     true
 }
 
-const COEFS: [f64; 12] = [1.0, -1.0, 2.5, -2.5, 1e-9, -1e-9, 1e-6, -1e-6, -1e-5, 1e9, 0.0, 123456789.125];
+const COEFS: [f64; 14] = [1.0, -1.0, 2.5, -2.5, 1e-9, -1e-9, 1e-6, -1e-6, -1e-5, 1e9, 0.0, 123456789.125, 1.000001, -0.999999];
 
 fn coef_sig(c: f64) -> &'static str {
     if c == 0.0 {
@@ -375,7 +375,7 @@ fn direct_case(i: u64) -> (LmSpec, String) {
 
 pub fn run(mut run: Run) -> ! {
     crate::core::silence_panics();
-    run.rule = "leg 1: every source text of the C11 expression families (all trees with <= 3 binary operators, prefix decorations, 3 spellings) and the C11 corpus is compiled, the Model is rendered, the rendering recompiled and compared (Model structure and linear model); leg 2: every linear model obtained in leg 1, every member of direct LinearModel families (domain forms x relations) and a coefficient alphabet {+-1, +-2.5, +-1e-9, +-1e-6, -1e-5, 1e9, 0, 123456789.125} in coefficients/rhs/offset x $-prefixed and indexed names x row names incl. cap__2 is rendered, recompiled (parse, type check, transform, linearize) and compared exactly up to row order; the rendering must be a fix-point; distinct = rendered texts".into();
+    run.rule = "leg 1: every source text of the C11 expression families (all trees with <= 3 binary operators, prefix decorations, 3 spellings) and the C11 corpus is compiled, the Model is rendered, the rendering recompiled and compared (Model structure and linear model); leg 2: every linear model obtained in leg 1, every member of direct LinearModel families (domain forms x relations) and a coefficient alphabet {+-1, +-2.5, +-1e-9, +-1e-6, -1e-5, 1e9, 0, 123456789.125, 1.000001, -0.999999} in coefficients/rhs/offset x $-prefixed and indexed names x row names incl. cap__2 is rendered, recompiled (parse, type check, transform, linearize) and compared exactly up to row order; the rendering must be a fix-point; distinct = rendered texts".into();
     run.assume("compiled models compared exactly (all numbers round-trip through Rust's shortest decimal rendering); variables with an all-zero column are projected away because the compiler drops unused variables");
     let quick = run.quick();
     // leg 1 + leg 2 on compiled models from expression sources
